@@ -88,8 +88,11 @@ Definition c08_step_ok (cur floor : N) (st : c08_step) : bool :=
 
 (* a range read in two steps, the check of the record and the scan (which ends with a second check): whichever step
    answers, below the floor of that moment it must be the refusal; passing the check below the floor is a violation *)
-Definition read_check_ok (floor : N) (st : c08_step) : bool :=
+Definition read_check_ok (cur floor : N) (st : c08_step) : bool :=
   match s8_op st, s8_obs st with
+  (* a read during which the record cannot be read: below the floor it must still be the refusal *)
+  | CFaultRead rev, ORead res => if eff_rev cur rev <? floor then rres_eqb res RErr else true
+  | CFaultRead _, _ => false
   | CReadCheck _ rev, ORead res => if rev <? floor then rres_eqb res RErr else true
   | CReadCheck _ rev, OWrite => negb (rev <? floor)
   | CReadCheck _ _, _ => false
@@ -100,7 +103,7 @@ Definition read_check_ok (floor : N) (st : c08_step) : bool :=
 
 (* verdict of one step: None fine, Some 0 = violation *)
 Definition c08_step_verdict (cur floor : N) (st : c08_step) : option N :=
-  if c08_step_ok cur floor st && read_check_ok floor st then None else Some 0.
+  if c08_step_ok cur floor st && read_check_ok cur floor st then None else Some 0.
 
 Definition worse8 (a b : option N) : option N :=
   match a, b with
@@ -121,3 +124,10 @@ Fixpoint c08_orc (cur floor : N) (steps : list c08_step) : option N :=
   end.
 
 Definition c08_oracle (c : c08_case) : option N := c08_orc (c8_init c) 0 (c8_steps c).
+
+(* the hypotheses of C08_oracle_sound, decided: revisions within 64 bits *)
+Definition c08_validb (c : c08_case) : bool :=
+  (c8_init c <? 18446744073709551616) && forallb (fun st => s8_cur st <? 18446744073709551616) (c8_steps c).
+
+(* what the shards evaluate: the case lies within the theorem's hypotheses and the model reproduces it *)
+Definition c08_check_v (c : c08_case) : bool := c08_validb c && c08_check c.
